@@ -264,6 +264,9 @@ func (e *G2) UnmarshalCompressed(data []byte) ([]byte, error) {
 	}
 	if e.p.x.IsZero() && e.p.y.IsZero() {
 		// This is the point at infinity.
+		if data[0] != 3 { // MarshalCompressed emits 03 || 0...0 for it
+			return nil, errors.New("sm9.G2: malformed point")
+		}
 		e.p.y.SetOne()
 		e.p.z.SetZero()
 		e.p.t.SetZero()
